@@ -84,6 +84,10 @@ func (rl *RangeLoop) Iterate() inspector.LoopCtl {
 	}
 	if err != nil && err != ErrBreakLoop && err != ErrContLoop {
 		// Any other error (including interrupt signal) must reach the caller.
+		// The loop ends here: it is one of the loops a pending break depth counts (lazybreak followed by exit).
+		if rl.ctx.brkD > 0 {
+			rl.ctx.brkD--
+		}
 		rl.err = err
 		return inspector.LoopCtlBrk
 	}
